@@ -19,7 +19,7 @@ Definition state_code (s : conn_state) : Z :=
 
 (* One connection history.  gone = Some k: Shutdown closed the idle connection while the first byte of request k
    was being read (the harness forces this order); xst / stop as in ServeCheck.mk_env; ad = Delegated: the connection looks
-   like TLS and is handed to a NextProto handler, or its handshake fails.  states = the hook calls the implementation made for this connection;
+   like TLS and is handed to a NextProto handler (a failing handshake is swallowed by getNextProto: served normally).  states = the hook calls the implementation made for this connection;
    actives = for every StateActive call: (bytes the client had handed to the connection when the hook ran,
    total length of the requests completed before); cs = the chunks the server's Read calls returned. *)
 Inductive c14case :=
